@@ -25,6 +25,8 @@ var errInjected = errors.New("injected storage fault")
 type crashSignal struct{ afterCommit bool }
 
 type ctl struct {
+	recording bool
+	puts      []putRec
 	mode   string // "", "count", "failwrite", "failcommit", "crashwrite", "crashcommit"
 	target int
 	n      int      // ticks seen in the current operation
@@ -129,6 +131,9 @@ func (b *fbucket) DeleteBucket(name string) error {
 func (b *fbucket) Put(k, v []byte) error {
 	if err := b.t.c.write("put", b.t); err != nil {
 		return err
+	}
+	if b.t.c.recording {
+		b.t.c.puts = append(b.t.c.puts, putRec{append([]string(nil), b.dbBucket.GetBucketMeta().Paths()...), append([]byte(nil), k...), append([]byte(nil), v...)})
 	}
 	return b.dbBucket.Put(k, v)
 }
